@@ -101,6 +101,7 @@ class Item:
     def coro(self, engine, s, sched, shared):
         w = world_mod.World(s, self.wseed, self.faults, sched)
         w.shared_exc = shared if shared is not None else world_mod.make_shared_exception()
+        w.mutate_args = getattr(self, "mutate_args", False)
         root = w.root_object(self.root_t) if (self.use_root and self.root_t) else None
         return engine.execute(self.text, operation_name=self.op_name, context={"world": w, "tag": self.wseed},
                               variables=self.variables, initial_value=root)
@@ -110,6 +111,28 @@ def broken_variants(rng, text):
     choices = [text[: max(1, len(text) // 2)], text.replace("{", "", 1), text + " }", "", "query { ", text.replace(":", "", 1),
                "{ __nosuchfield_ }", "{ ...Undefined_ }", "fragment Unused_ on Query { __typename } " + text]
     return rng.choice(choices)
+
+
+def wrong_type_field_variant(rng, s, doc):
+    """An INVALID document: a field name that exists on some other type is selected where it does not exist."""
+    import copy
+    from vt.props.c07 import walk
+    d2 = copy.deepcopy(doc)
+    sites = [x for x in walk(s, d2) if x.sel.kind == "field" and x.sel.selset is not None and x.parent in s.types]
+    rng.shuffle(sites)
+    allnames = sorted({fn for t in s.types.values() if t.kind in ("OBJECT", "INTERFACE") for fn in t.fields})
+    for x in sites:
+        f = s.fields_of(x.parent).get(x.sel.name)
+        if f is None:
+            continue
+        inner = smodel.named_of(f.type)
+        if inner not in s.types or s.kind(inner) == "UNION":
+            continue
+        foreign = [n for n in allnames if n not in s.fields_of(inner)]
+        if foreign:
+            x.sel.selset.append(docgen.FieldSel(rng.choice(foreign), alias="wrongType_"))
+            return docgen.print_doc(d2, rng, {"multiline": False, "nl": "\n", "shorthand": True})
+    return None
 
 
 def gen_batch(rng, s):
@@ -123,8 +146,19 @@ def gen_batch(rng, s):
             req = X.gen_request(rng, s, doc=base.doc)          # same document, other op/variables/world
         elif r < 0.8:
             req = X.gen_request(rng, s, docgen.DocOpts(max_fields=rng.choice([3, 5]), max_depth=3, op_kinds=("query", "mutation")))
-        else:
+            if len(req.doc.ops) == 1 and base.op.name and rng.random() < 0.5 and req.op.kind == base.op.kind:
+                # another document whose operation has the SAME NAME but its own variable definitions
+                req.op.name = base.op.name
+                docgen.print_doc(req.doc, rng, docgen.random_style(rng))
+                req.text, req.pass_opname = req.doc.text, rng.random() < 0.7
+        elif r < 0.9:
             items.append(Item(broken_variants(rng, base.text), None, {}, rng.randrange(10 ** 9), {}, False, None, "broken"))
+            continue
+        else:
+            t = wrong_type_field_variant(rng, s, base.doc)
+            docgen.print_doc(base.doc, rng, {"multiline": False, "nl": "\n", "shorthand": True}) if False else None
+            items.append(Item(t or broken_variants(rng, base.text), base.op_name, base.variables, rng.randrange(10 ** 9), {}, False, None,
+                              "wrong-type-field" if t else "broken"))
             continue
         faults = {}
         w0, _ = X.make_worlds(s, req)
@@ -147,6 +181,13 @@ def gen_batch(rng, s):
             kind = "bad-variables"
         items.append(Item(req.text, op_name, variables, req.wseed, faults, req.use_root, s.roots()[req.op.kind], kind))
         items[-1].insts = sorted(w0.insts)
+    if rng.random() < 0.25:
+        # hostile-but-legal resolvers that modify the argument containers they receive: nothing may be shared between
+        # calls or requests.  Only for requests whose arguments are constants (a variable's coerced value is legitimately
+        # one object).
+        for it in items:
+            if it.kind == "exec" and "$" not in (it.text if isinstance(it.text, str) else ""):
+                it.mutate_args = True
     execs = [it for it in items if it.kind == "exec" and getattr(it, "insts", None)]
     if len(execs) >= 2 and rng.random() < 0.12:
         # the SAME library-error instance raised inside two different requests (known finding)
@@ -214,10 +255,29 @@ async def run_case(ctx, rng, index):
             if fresh is None:
                 fresh = harness.Bundle(s, sdl=sdl, query_cache_decorator=None)
                 await fresh.build()
+            # the fresh engine sees the requests in the OPPOSITE order (a history-dependent defect shows as a difference);
+            # one request per batch is also answered by a brand-new engine built for it alone
+            order = list(range(len(items)))[::-1]
+            fresh_resp = {}
+            try:
+                for i in order:
+                    fresh_resp[i] = norm(await items[i].coro(fresh.engine, s, None, None))
+                j = rng.randrange(len(items))
+                single = harness.Bundle(s, sdl=sdl, query_cache_decorator=None)
+                await single.build()
+                try:
+                    one = norm(await items[j].coro(single.engine, s, None, None))
+                finally:
+                    single.dispose()
+                if one != solo[j]:
+                    ctx.violation("brand-new-engine-differs", "request %d brand-new=%s solo=%s" % (j, str(one)[:300], str(solo[j])[:300]), case)
+            except Exception as e:  # noqa
+                ctx.violation("execute-raised", repr(e), case)
+                continue
             for i, it in enumerate(items):
                 try:
                     after = norm(await it.coro(b.engine, s, None, None))
-                    fr = norm(await it.coro(fresh.engine, s, None, None))
+                    fr = fresh_resp[i]
                 except Exception as e:  # noqa
                     ctx.violation("execute-raised", repr(e), case)
                     continue
